@@ -178,6 +178,10 @@ var c08Recursion = []string{
 	`function f(n) { return n > 0 ? f(n + 1) : f(n + 2); } return f(1);`,
 	`function f(n) { switch (n) { case 0 { return f(1); } default { return f(n + 1); } } } return f(0);`,
 	`function f(n) { if (n < 300) { return f(n + 1); } return n; } return f(0);`,
+	// runaway only for some objects: the benign run afterwards must work
+	`function f(n) { if (B == 0) { return f(n + 1); } return n; } return f(0);`,
+	`function g(n) { if (A > 5) { return g(n + 1); } return n; } function f(n) { return g(n) + 1; } x = f(0); return x;`,
+	`function f(n) { if (maybe()) { return f(n + 1); } return 10 / n; } return f(1);`,
 }
 
 // constant expressions: every binary operator over edge-case literals (the
@@ -195,9 +199,23 @@ var c08RuntimeNest = []string{
 	`a = [1]; i = 0; while (i < %d) { a = [a]; i++; } return a;`,
 }
 
+// lexer / parser edge cases: input that ends (or goes wrong) in the middle of
+// a token.  Each is tried on its own and as the tail of a valid prefix.
+var c08LexEdges = []string{
+	"\"", "\"abc", "\"abc\\", "\"abc\\\r", "\"abc\\\r\n", "\"abc\\n", "\"\\", "\"\\\"", "\"a\nb", "'", "'abc", "`", "`abc",
+	"/", "/abc", "/abc/", "/(/", "/(?i/", "/(?/", "/(?", "/(?:a|b/", "/(?i)/", "/[/", "/a/xyz", "/\\", "/a\\/", "x ~= /", "x ~= /(?", "x ~= /(?i",
+	"1e", "1e+", "1.", "1..", "1...2", "0x", "0xZZ", "0b12", "1_000", "9999999999999999999999", "1.5.5", ".5", "-", "--", "- -", "+", "++", "x++ ++",
+	"(", ")", "[", "]", "{", "}", "((", "[1,", "{1:", "{1:2,", "{,}", "[,]", "f(", "f(1,", "f(,)", "x[", "x[1", "x.", "x..", ".x", "x.y.",
+	"if", "if (", "if (1", "if (1)", "if (1) {", "if (1) {} else", "if (1) {} else if", "while", "while (", "for", "foreach", "foreach x", "foreach x in", "foreach x,", "foreach x, y in", "foreach , in x {}",
+	"function", "function f", "function f(", "function f(a", "function f(a,", "function f(a) {", "function (a) {}", "function f(1) {}", "function f(a a) {}", "local", "local x", "local 1;", "return", "return;", "return return",
+	"switch", "switch (", "switch (1)", "switch (1) {", "switch (1) { case", "switch (1) { case 1", "switch (1) { case 1 {", "switch (1) { default", "switch (1) { default { } default { } }", "switch (1) { case 1, }", "switch (1) { 1 }",
+	"1 ?", "1 ? 2", "1 ? 2 :", "1 ? 2 : 3 ? 4 : 5", "x = ", "x += ", "= 1", "1 = 2", "x == ", "&&", "1 &&", "|| 1", "!", "!!", "√", "√√", "1 in", "in 1", "1 ** ", "%", "1 % ",
+	"//", "// comment", "/* c", "#", "@", "$", "$x", "~", "^", "&", "|", "\\", "\x00", "\xff", "\xc3", "\xe2\x82", "\r", "\r\n", "\t", "é", "x\x00y", "return \"a\x00b\";",
+}
+
 var hostileDict = []string{"(", ")", "{", "}", "[", "]", ";", ",", ":", "?", "=", "==", "!=", "<", "<=", ">", ">=", "+", "-", "*", "/", "%", "**", "++", "--", "+=", "-=", "*=", "/=",
 	"&&", "||", "!", "~=", "!~", "..", ".", "√", "in", "if", "else", "while", "for", "foreach", "function", "return", "local", "switch", "case", "default", "true", "false",
-	"\"", "'", "/", "/a/", "/(/", "/[/i", "\"unterminated", "0x", "1e999", "99999999999999999999999", "1.2.3", "0.", ".5", "$x", "_", "x", "f", "\\", "\x00", "\xff\xfe", "é", "𝒳", "`", "#", "//", "/*", "@", "~", "^", "&", "|",
+	"\"", "'", "/", "/a/", "/(/", "/[/i", "/(?i/", "/(?/", "/(?:a|b/", "\"abc\\", "\"abc\\\r", "\\\r", "\"unterminated", "0x", "1e999", "99999999999999999999999", "1.2.3", "0.", ".5", "$x", "_", "x", "f", "\\", "\x00", "\xff\xfe", "é", "𝒳", "`", "#", "//", "/*", "@", "~", "^", "&", "|",
 	"function f(", "foreach x in", "case 1", "1 ? 2 :", "1 ? 2 : 3 ? 4 : 5", "{1:2,", "[1,2", "f(1,", "local x;", "return;", "switch (1) {", "default {", "else if", "in in"}
 
 var reTok = regexp.MustCompile("\"[^\"]*\"|/[^/ ]+/[a-z]*|[A-Za-z_][A-Za-z_0-9]*|[0-9]+(?:\\.[0-9]+)?|\\+\\+|--|\\+=|-=|\\*=|/=|==|!=|<=|>=|&&|\\|\\||~=|!~|\\.\\.|\\*\\*|\\s+|.")
@@ -241,6 +259,11 @@ func (p *c08) Enumerate(tier string) [][]int32 {
 			for opt := 0; opt < 2; opt++ {
 				out = append(out, []int32{5, int32(s), int32(api), int32(opt)})
 			}
+		}
+	}
+	for e := range c08LexEdges {
+		for pre := 0; pre < 4; pre++ {
+			out = append(out, []int32{14, int32(e), int32(pre)})
 		}
 	}
 	for op := range c08ConstOps {
@@ -433,6 +456,42 @@ func nested(kind int, n int) string {
 	}
 }
 
+// pokeUnprepared calls Run and Execute on an evaluator whose Prepare failed:
+// both must come back (with an error) - no panic, no blocked call.
+func (p *c08) pokeUnprepared(o *Outcome, ev *c08Eval) {
+	for _, api := range []int{1, 0, 1} {
+		r := p.apiCall(ev, api, Obj{A: 1})
+		if p.check(o, r.Escaped, "call after a failed Prepare") {
+			return
+		}
+	}
+}
+
+// prepareAndPoke prepares text and exercises every entry point on it.
+func (p *c08) prepareAndPoke(o *Outcome, st *Stats, text string, opt bool, sample map[string]interface{}) {
+	ev := p.newEval(text, "")
+	err, esc := doPrepare(ev.e, opt)
+	if p.check(o, esc, fmt.Sprintf("Prepare of %q", clip(text, 80))) {
+		return
+	}
+	if err != nil {
+		sample["prepare"] = err.Error()
+		p.pokeUnprepared(o, ev)
+		return
+	}
+	r := p.apiCall(ev, 0, Obj{A: 1, S: "ab"})
+	sample["result"] = r.String()
+	if p.check(o, r.Escaped, "Execute") {
+		return
+	}
+	_, _, desc := doDump(ev.e)
+	if p.check(o, desc, "Dump") {
+		return
+	}
+	r2 := p.apiCall(ev, 1, nil)
+	p.check(o, r2.Escaped, "Run")
+}
+
 func (p *c08) mutate(c *verifsim.Chooser, text string) (string, string) {
 	toks := reTok.FindAllString(text, -1)
 	n := 1 + c.Intn(3)
@@ -486,7 +545,7 @@ func (p *c08) mutate(c *verifsim.Chooser, text string) (string, string) {
 func (p *c08) Run(c *verifsim.Chooser, st *Stats, render bool) *Outcome {
 	o := &Outcome{}
 	// weighted: 0 history x5, hostile text x3, tables x1 each, nesting, recursion
-	mode := []int{0, 1, 2, 3, 4, 5, 0, 0, 0, 0, 3, 3, 6, 7}[c.Intn(14)]
+	mode := []int{0, 1, 2, 3, 4, 5, 0, 0, 0, 0, 3, 3, 6, 7, 8}[c.Intn(15)]
 	sample := map[string]interface{}{}
 	defer func() {
 		if render {
@@ -564,21 +623,36 @@ func (p *c08) Run(c *verifsim.Chooser, st *Stats, render bool) *Outcome {
 			return o
 		}
 		var r Result
+		ev.h.Maybe = []bool{true}
 		under(nolimit, func() {
 			if api == 1 {
-				r = doRun(ev.e, nil)
+				r = doRun(ev.e, Obj{A: 7, B: 0})
 			} else {
-				r = doExecute(ev.e, nil)
+				r = doExecute(ev.e, Obj{A: 7, B: 0})
 			}
 		})
 		sample["result"] = r.String()
 		o.Digest.Str(r.String())
 		o.Nontrivial = true
 		st.fault("unbounded-recursion")
+		ev.e.SetContext(ev.ctx)
 		if p.check(o, r.Escaped, "recursion") {
 			return o
 		}
 		p.usable(o, ev, text, opt, "recursion")
+	case 8: // lexer / parser edge table
+		edge := c08LexEdges[c.Intn(len(c08LexEdges))]
+		prefix := []string{"", "return ", "x = 1;\nreturn x + ", "function f(a) { return a; }\nif (f(1)) { y = "}[c.Intn(4)]
+		text := prefix + edge
+		if c.Intn(3) == 1 {
+			text += "\n"
+		}
+		currentDesc.Store("lexer edge")
+		sample["mode"], sample["script"] = "lexer/parser edge", text
+		o.Digest.Str("edge" + text)
+		o.Nontrivial = true
+		st.fault("lexer-edge")
+		p.prepareAndPoke(o, st, text, c.Intn(2) == 0, sample)
 	case 7: // constant expressions (folded by the optimizer during Prepare)
 		op := c08ConstOps[c.Intn(len(c08ConstOps))]
 		a := c08ConstVals[c.Intn(len(c08ConstVals))]
@@ -682,6 +756,9 @@ func (p *c08) Run(c *verifsim.Chooser, st *Stats, render bool) *Outcome {
 		if err != nil {
 			st.probe("hostile-text-rejected")
 			sample["prepare"] = err.Error()
+			// a host that ignores the error and carries on must get
+			// errors, not panics or a call that never returns
+			p.pokeUnprepared(o, ev)
 			return o
 		}
 		st.probe("hostile-text-accepted")
